@@ -100,7 +100,7 @@ type Layout struct {
 	R *core.Rng // nil = canonical layout
 
 	// Quote: 0 canonical (unquoted when possible, else double), 1 random form
-	// per argument, 2 always double, 3 always single when possible
+	// per argument, 2 always double, 3 always single when possible, 4 always a concatenation of 2-3 pieces
 	Quote int
 	// Trivia: 0 none, 1 comments and blank lines at random token boundaries,
 	// 2 heavy
@@ -335,6 +335,12 @@ func (r *renderer) arg(a string) {
 		if canBeSingle(a) && !strings.ContainsAny(a, "\n") {
 			form = 1
 		} else {
+			form = 2
+		}
+	case 4:
+		// always a concatenation (needs R)
+		form = 3
+		if strings.Contains(a, "\n ") || l.R == nil {
 			form = 2
 		}
 	default:
